@@ -76,31 +76,57 @@ def cex_args(job, fi, cex, tr):
     return out
 
 
+class ReplayBuilds:
+    """one dispatcher executable per (kernel, build flavour), built lazily, shared by all replays of a run"""
+
+    def __init__(self, plan, wd):
+        import threading
+        self.lock = threading.Lock()
+        self.locks = {}
+        self.exes = {}
+        self.wd = wd
+        self.shims = {}
+        for j in plan['jobs']:
+            if j.shim and j.shim_types is not None:
+                self.shims.setdefault(j.kernel, []).append((j.shim, j.shim_types, getattr(j, 'shim_ret', 'auto')))
+
+    def get(self, kern, flavour, flags, comp):
+        key = (kern.name, flavour)
+        with self.lock:
+            lk = self.locks.setdefault(key, __import__('threading').Lock())
+        with lk:
+            if key not in self.exes:
+                src = RP.driver_source(kern.src, self.shims.get(kern.name, []))
+                base_flags = [f for f in kern.flags if f != '-U__clang__']
+                self.exes[key] = RP.build(src, base_flags + flags, comp, os.path.join(self.wd, 'replay_build'),
+                                          '%s_%s' % (kern.name, flavour))
+            return self.exes[key]
+
+
+REPLAY = None
+
+
 def native_replay(job, kern, args, wd, sanitize=False):
     """returns list of observations (one per build flavour)"""
     if not job.shim:
         return []
     obs = []
-    ret = getattr(job, 'shim_ret', 'auto')
-    src = RP.driver_source(kern.src, job.shim, job.shim_types, ret)
     gcc_paths = '-U__clang__' in kern.flags
-    compilers = [('g++', [])] if gcc_paths else [('clang++-14', [])]
+    comp = 'g++' if gcc_paths else 'clang++-14'
     flavours = [('debug', ['-O0']), ('release', ['-O2', '-DNDEBUG'])]
     if sanitize:
         flavours.append(('ubsan', ['-O0', '-fsanitize=undefined,address', '-fno-sanitize-recover=all']))
-    base_flags = [f for f in kern.flags if f != '-U__clang__']
-    argv = [RP.fmt_arg(a, t) for a, t in zip(args, job.shim_types)]
-    for comp, cf in compilers:
-        for fl, ff in flavours:
-            exe, cmd, err = RP.build(src, base_flags + ff, comp, os.path.join(wd, 'replay_build'), '%s_%s_%s' % (re.sub(r'\W', '_', job.name)[:60], comp.replace('+', 'p'), fl))
-            if exe is None:
-                obs.append({'build': comp + ' ' + fl, 'kind': 'build-error', 'detail': err[-800:], 'cmd': cmd})
-                continue
-            o = RP.observe(exe, argv)
-            o['build'] = comp + ' ' + fl
-            o['cmd'] = cmd
-            o['argv'] = argv
-            obs.append(o)
+    argv = [job.shim] + [RP.fmt_arg(a, t) for a, t in zip(args, job.shim_types)]
+    for fl, ff in flavours:
+        exe, cmd, err = REPLAY.get(kern, fl, ff, comp)
+        if exe is None:
+            obs.append({'build': comp + ' ' + fl, 'kind': 'build-error', 'detail': err[-800:], 'cmd': cmd})
+            continue
+        o = RP.observe(exe, argv)
+        o['build'] = comp + ' ' + fl
+        o['cmd'] = cmd
+        o['argv'] = argv
+        obs.append(o)
     return obs
 
 
@@ -196,6 +222,8 @@ def do_check(prop, tier, keep=False, only=None, verbose=False):
     os.makedirs(wd)
     exit_code = 0
     lines = []
+    global REPLAY
+    REPLAY = ReplayBuilds(plan, wd)
     try:
         # 1. kernels
         used = sorted({j.kernel for j in jobs})
@@ -221,41 +249,40 @@ def do_check(prop, tier, keep=False, only=None, verbose=False):
         known_hits = {}
         violations = []
         undecided = []
-        for r in results:
+
+        def decide(r):
             j = r.job
             if r.status == 'pass':
-                continue
+                return None
             if r.status == 'fail':
-                # known finding?
                 fs = [f for f in findings if re.fullmatch(f['job'], j.name)]
                 if fs:
                     j2 = copy_job(j)
                     region = ' || '.join('(%s)' % f['region'] for f in fs)
                     j2.harness_pre = (j.harness_pre + '\n  __CPROVER_assume(!(%s));' % region)
-                    j2.name = j.name
                     r2 = R.run_job(j2, kernels[j.kernel], os.path.join(wd, 'excl'))
                     if r2.status == 'pass':
                         r.known = fs
                         r.excl = r2
-                        for f in fs:
-                            known_hits.setdefault(f['id'], (f, []))[1].append(j.name)
-                        continue
+                        return ('known', fs)
                     if r2.status == 'fail':
-                        r.failed = r2.failed
-                        r.cmds = r2.cmds
-                        r.note_excl = 'fails outside the known-finding region too'
-                        # decide on the outside-region counterexample
                         kind, path, text = decide_failure(prop, j2, kernels[j.kernel], r2, wd)
-                    else:
-                        kind, path, text = 'undecided', None, 'run with known-finding region excluded: %s %s' % (r2.status, r2.detail)
-                else:
-                    kind, path, text = decide_failure(prop, j, kernels[j.kernel], r, wd)
-                if kind == 'violation':
-                    violations.append((r, path, text))
-                else:
-                    undecided.append((r, '%s (replay file %s)' % (text, path)))
+                        return (kind, path, text + ' (outside the known-finding region)')
+                    return ('undecided', None, 'run with known-finding region excluded: %s %s' % (r2.status, r2.detail))
+                return decide_failure(prop, j, kernels[j.kernel], r, wd)
+            return ('undecided', None, '%s: %s' % (r.status, r.detail))
+        with ThreadPoolExecutor(max_workers=12) as ex:
+            decs = list(ex.map(decide, results))
+        for r, d in zip(results, decs):
+            if d is None:
+                continue
+            if d[0] == 'known':
+                for f in d[1]:
+                    known_hits.setdefault(f['id'], (f, []))[1].append(r.job.name)
+            elif d[0] == 'violation':
+                violations.append((r, d[1], d[2]))
             else:
-                undecided.append((r, '%s: %s' % (r.status, r.detail)))
+                undecided.append((r, '%s (replay file %s)' % (d[2], d[1])))
         for fid, (f, names) in known_hits.items():
             lines.append('KNOWN-FINDING: property=%s %s [%s; %d job(s)]' % (prop, f['what'], fid, len(names)))
         for r, path, text in violations:
@@ -420,6 +447,8 @@ def do_replay(path):
         args = []
         for a, t in zip(d['inputs'], job.shim_types):
             args.append(float(a) if t in ('f32', 'f64') else int(a))
+        global REPLAY
+        REPLAY = ReplayBuilds(plan, wd)
         obs = native_replay(job, kern, args, wd, sanitize=True)
         exp = tuple(d['expected_by_oracle']) if d.get('expected_by_oracle') else None
         bad = 0
